@@ -27,6 +27,11 @@ class Interrupt(TorchFunctionMode):
 
     def __torch_function__(self, func, types, args=(), kwargs=None):
         self.n += 1
+        name = getattr(func, "__name__", "")
+        if "set_grad_enabled" in name or "set_autocast" in name or name.startswith("_set_"):
+            # never interrupt the restoration of global torch state (grad mode ...): that would leak into
+            # every later run of this process and is not a fault of the code under simulation
+            return func(*args, **(kwargs or {}))
         if self.k is not None and not self.fired and self.n >= self.k:
             self.fired = True
             self.at = getattr(func, "__name__", str(func))
